@@ -114,13 +114,17 @@ pub fn observe(script: &Script, log: &MultiRecordLog, dir: &Path, probe_seed: u6
             Some(last) => script.enc(last + 1),
             None => 0,
         };
-        let (sum_end, sum_present) = match summary.queues.get(name) {
-            Some(queue_summary) => (script.enc_opt(queue_summary.end), 1),
-            None => (-1, 0),
+        let (sum_end, sum_present, sum_file) = match summary.queues.get(name) {
+            Some(queue_summary) => (
+                script.enc_opt(queue_summary.end),
+                1,
+                queue_summary.file_number.map(|number| number as i64).unwrap_or(-1),
+            ),
+            None => (-1, 0, -1),
         };
         qs.push(json!({
             "q": idx, "recs": recs, "next": next, "last": script.enc_opt(last),
-            "lastrec": lastrec, "sumend": sum_end, "sumok": sum_present,
+            "lastrec": lastrec, "sumend": sum_end, "sumok": sum_present, "sumfile": sum_file,
         }));
     }
     let exists: Vec<i64> = script
